@@ -666,7 +666,11 @@ class Machine:
         Machine._HDR[key] = txt
         return txt
 
+    frame_rewrite = None       # optional fn(text) -> text applied to the callee texts of the CURRENT frame only (set by harness code)
+
     def subst_text(self, text):
+        if self.frame_rewrite is not None:
+            text = self.frame_rewrite(text)
         sub = getattr(self, 'cur_subst', {})
         if sub:
             text = re.sub(r'\b(' + '|'.join(map(re.escape, sub)) + r')\b', lambda mm: sub[mm.group(1)], text)
@@ -705,11 +709,14 @@ class Machine:
         f = self.resolve(callee)
         if f is not None:
             saved = getattr(self, 'cur_subst', {})
+            saved_fr = self.frame_rewrite
             self.cur_subst = dict(self.last_subst)
+            self.frame_rewrite = None
             try:
                 return self.exec_fn(f, args)
             finally:
                 self.cur_subst = saved
+                self.frame_rewrite = saved_fr
         for pat, model in self.models:
             if pat.search(callee):
                 return model(self, callee, args)
